@@ -177,7 +177,10 @@ func runC11(c *Checker) {
 	c.floorCheck("C11.header analyses", runs, 2048)
 
 	// getters
-	for _, g := range []struct{ m, f string; w int }{
+	for _, g := range []struct {
+		m, f string
+		w    int
+	}{
 		{"PacketStartCodePrefix", "packetStartCodePrefix", 32}, {"StreamId", "streamId", 8}, {"PTS", "pts", 64}, {"DTS", "dts", 64}, {"DataAligned", "dataAlignment", 1},
 	} {
 		a := "pes:(*pESHeader)." + g.m
